@@ -131,8 +131,8 @@ Section StepV.
     assert (Hnd : doneb (t_cycle (S y)) = false).
     { pose proof (g_fin _ _ _ _ Gx) as Fx. rewrite Hfx, Hcyc in Fx. destruct (doneb (t_cycle (S y))); [discriminate|reflexivity]. }
     assert (G2 : good y s2').
-    { destruct Gy. constructor; rewrite ?K2st, ?K2cy, ?K2fi, ?K2nv, ?K2of, ?K2ng, ?K2pa, ?K2co, ?K2or; auto; try lia;
-        try (intros; lia); try (intros; discriminate).
+    { destruct Gy. constructor; rewrite ?K2st, ?K2cy, ?K2fi, ?K2nv, ?K2of, ?K2ng, ?K2pa, ?K2co, ?K2or; auto;
+        try (clear; lia); try (intros H; exfalso; clear - H; lia); try (intros H; discriminate H).
       - intros Hd. rewrite Hnd in Hd. discriminate.
       - split; [constructor|split; [intros z []|constructor]].
       - split; [constructor|intros z []].
